@@ -396,14 +396,16 @@ func (c *compiler) compile(tok *token) []instruction {
 		}
 		arg := tok.Tokens[0]
 		if arg.Symbol == "index" {
+			// the load and the store of the element are where the index expression is (its
+			// "["), as in Go, not where the operator is: the two can be on different lines
 			const indexItem, indexKey = 0, 1
 			res = append(res, c.compile(arg.Tokens[indexItem])...)
 			res = append(res, c.compile(arg.Tokens[indexKey])...)
-			res = append(res, instruction{Code: codeGet})
+			res = append(res, instruction{Code: codeGet, Pos: c.posOf(arg)})
 			res = append(res, todo...)
 			res = append(res, c.compile(arg.Tokens[indexItem])...)
 			res = append(res, c.compile(arg.Tokens[indexKey])...)
-			res = append(res, instruction{Code: codeSet})
+			res = append(res, instruction{Code: codeSet, Pos: c.posOf(arg)})
 		} else if idx, ok := c.importedGlobal(arg); ok {
 			res = append(res, instruction{Code: codeGlobalGet, A: reg(idx)})
 			res = append(res, todo...)
@@ -411,10 +413,10 @@ func (c *compiler) compile(tok *token) []instruction {
 		} else if arg.Symbol == "." {
 			const indexItem, indexKey = 0, 1
 			res = append(res, c.compile(arg.Tokens[indexItem])...)
-			res = append(res, instruction{Code: codeGetAttr, A: reg(c.Globals.Index(arg.Tokens[indexKey].Text))})
+			res = append(res, instruction{Code: codeGetAttr, A: reg(c.Globals.Index(arg.Tokens[indexKey].Text)), Pos: c.posOf(arg)})
 			res = append(res, todo...)
 			res = append(res, c.compile(arg.Tokens[indexItem])...)
-			res = append(res, instruction{Code: codeSetAttr, A: reg(c.Globals.Index(arg.Tokens[indexKey].Text))})
+			res = append(res, instruction{Code: codeSetAttr, A: reg(c.Globals.Index(arg.Tokens[indexKey].Text)), Pos: c.posOf(arg)})
 		} else {
 			getter := codeGlobalGet
 			setter := codeGlobalSet
@@ -550,16 +552,18 @@ func (c *compiler) compile(tok *token) []instruction {
 				res = append(res, instruction{Code: codePop})
 				continue
 			} else if arg.Symbol == "index" {
+				// a store through an index or a selector is where that target is (its "[" or
+				// "."), as in Go, not where the "=" is: the two can be on different lines
 				const indexItem, indexKey = 0, 1
 				res = append(res, c.compile(arg.Tokens[indexItem])...)
 				res = append(res, c.compile(arg.Tokens[indexKey])...)
-				res = append(res, instruction{Code: codeSet})
+				res = append(res, instruction{Code: codeSet, Pos: c.posOf(arg)})
 			} else if idx, ok := c.importedGlobal(arg); ok {
 				res = append(res, instruction{Code: codeGlobalSet, A: reg(idx)})
 			} else if arg.Symbol == "." {
 				const indexItem, indexKey = 0, 1
 				res = append(res, c.compile(arg.Tokens[indexItem])...)
-				res = append(res, instruction{Code: codeSetAttr, A: reg(c.Globals.Index(arg.Tokens[indexKey].Text))})
+				res = append(res, instruction{Code: codeSetAttr, A: reg(c.Globals.Index(arg.Tokens[indexKey].Text)), Pos: c.posOf(arg)})
 			} else {
 				code := codeGlobalSet
 				lookup := c.Globals
@@ -1027,6 +1031,11 @@ func (c *compiler) compile(tok *token) []instruction {
 		res[n].Pos = newPos(c.Globals, tok.Pos.Filename, c.FuncName, tok.Pos.Line, tok.Pos.Column)
 	}
 	return res
+}
+
+// posOf is the position of a token in the function being compiled.
+func (c *compiler) posOf(tok *token) pos {
+	return newPos(c.Globals, tok.Pos.Filename, c.FuncName, tok.Pos.Line, tok.Pos.Column)
 }
 
 // hasCall reports whether running the instructions can call a function.
